@@ -494,6 +494,8 @@ pub fn run(args: &Args) -> i32 {
     ev.floor("expect", "tlv_tail", 0.1);
     engine::run_pbt(&mut ev, args, "codec", args.cases(60_000, 2_000_000), codec_strategy, check_codec);
     engine::run_pbt(&mut ev, args, "expect", args.cases(20_000, 600_000), expect_strategy, check_expect);
+    engine::fuzz::corpus_check(&mut ev, args, "corpus", "ppv2", "C18/corpus", &["rejected"], vp_oracles::ppv2);
+    engine::fuzz::campaign(&mut ev, args, "fuzz", "ppv2", 3_000_000);
     engine::shard::run_sharded(&mut ev, args, super::c18_lab::SUB, 16, std::time::Duration::from_secs(args.tier.pick(600, 3600)));
     ev.finish()
 }
